@@ -107,7 +107,6 @@ Qed.
 Section All.
   Variable fold : bytes -> bytes.
   Variable pres : bytes -> bytes.
-  Hypothesis idem : forall x, pres (pres x) = pres x.
   Variable perm : list fdef -> list fdef.
   Hypothesis perm_ok : forall m, Permutation (perm m) m.
 
@@ -182,9 +181,7 @@ Section All.
       apply filter_In in X. exact (proj1 X). }
     pose proof (fnp_top_defs_are_defs root1) as TD. rewrite Forall_forall in TD.
     rewrite (fnp_set_def_def f d (TD d (nth_error_In _ _ Ed))). unfold fdef_name. cbn [nval].
-    apply bytes_eqb_eq. rewrite Hn.
-    unfold J in Jm. rewrite Forall_forall in Jm. destruct (Jm f Hf) as [d0 [_ [N0 _]]].
-    rewrite N0, idem. reflexivity.
+    apply bytes_eqb_eq. symmetry. exact Hn.
   Qed.
 
   (* Props/C15.v C15_ix_contiguous_full_statement, with refs_leaf in place of no_nested_defs *)
